@@ -669,6 +669,16 @@ func (c *codecV2) DecodeResponse(req *tikvrpc.Request, resp *tikvrpc.Response) (
 		if err != nil {
 			return nil, err
 		}
+		for _, br := range r.BatchResponses {
+			br.RegionError, err = c.decodeRegionError(br.RegionError)
+			if err != nil {
+				return nil, err
+			}
+			br.Locked, err = c.decodeLockInfo(br.Locked)
+			if err != nil {
+				return nil, err
+			}
+		}
 	case tikvrpc.CmdCopStream:
 		return nil, errors.New("streaming coprocessor is not supported yet")
 	case tikvrpc.CmdGetHealthFeedback:
